@@ -989,8 +989,81 @@ def rule_M1(prog, fixture=False):
                 res.add(key, DISCHARGED, where, what, "every argument the kept value depends on (%s) is mentioned by the condition that "
                         "refreshes it" % (", ".join(sorted({a[1] for a in dep})) or "none"), func=f.name, extra=extra)
     nfun += _m1_partial_refill(prog, res)
+    nfun += _m1_escape(prog, res)
     res.stats["keeping_functions"] = nfun
     return res
+
+
+def _m1_escape(prog, res):
+    """a reference to a kept object that its function rewrites in place must not outlive the call: a class member bound to it
+    refers to whatever the latest call - of any object, with any argument - has put there"""
+    rewriting = {}
+    for g in prog.functions.values():
+        if not (g.get("ret") or "").rstrip().endswith("&"):
+            continue
+        rets = [n for n in g.walk() if n.k == "ReturnStmt" and n.c]
+        ds = []
+        for r in rets:
+            e = r.c[0].strip_all()
+            while e.k == "MemberExpr" and e.c:
+                e = e.c[0].strip_all()
+            if e.k == "DeclRefExpr" and e.decl and e.decl.get("k") == "global" and e.decl.get("sl") and not e.decl.get("constq"):
+                ds.append(e.decl)
+        if not rets or len(ds) != len(rets) or len({d_["n"] for d_ in ds}) != 1:
+            continue
+        d = ds[0]
+        wr = False
+        for n in g.walk():
+            tgt = None
+            if n.k in ("BinaryOperator", "CompoundAssignOperator") and n.op and n.op.endswith("=") and n.op not in ("==", "!=", "<=", ">=") and len(n.c) == 2:
+                tgt = n.c[0]
+            elif n.k == "CXXOperatorCallExpr" and n.op == "=" and len(n.c) >= 3:
+                tgt = n.c[1]
+            elif n.k == "CXXMemberCallExpr" and n.callee and not n.callee.get("const"):
+                nm = (n.callee.get("qn") or "").rsplit("::", 1)[-1]
+                if nm in ("resize", "assign", "clear", "push_back", "emplace_back", "swap", "insert", "erase"):
+                    tgt = n.call_object()
+            if tgt is not None:
+                t0 = tgt.strip_all()
+                while t0.k == "MemberExpr" and t0.c:
+                    t0 = t0.c[0].strip_all()
+                if t0.k == "DeclRefExpr" and t0.decl and t0.decl.get("k") == "global" and t0.decl.get("n") == d["n"]:
+                    wr = True
+        if wr:
+            rewriting[g.usr] = (g, d)
+    n_inst = 0
+    if not rewriting:
+        return 0
+    for f in sorted(prog.functions.values(), key=lambda h: (h.file, h.line, h.name)):
+        if not f.cls:
+            continue
+        cj = prog.classes.get(f.cls) or {}
+        indirect = {x["name"]: x for x in cj.get("fields", []) if x.get("ref") or x.get("ptr")}
+        if not indirect:
+            continue
+        sites = []
+        for ci in f.ctor_inits():
+            if ci.get("member") in indirect:
+                for x in ci.walk():
+                    if x.is_call() and x.callee and x.callee.get("usr") in rewriting:
+                        sites.append((ci.get("member"), x))
+        for n in f.walk():
+            if n.k == "BinaryOperator" and n.op == "=" and len(n.c) == 2:
+                fld = _y1_this_field(n.c[0])
+                if fld in indirect and indirect[fld].get("ptr"):
+                    for x in n.c[1].walk():
+                        if x.is_call() and x.callee and x.callee.get("usr") in rewriting:
+                            sites.append((fld, x))
+        for (fld, x) in sites:
+            g, d = rewriting[x.callee["usr"]]
+            n_inst += 1
+            rel = prog.rel(f.file)
+            res.add("M1:%s:%s:escape" % (f.cls, fld), VIOLATED, "%s:%d" % (rel, x.line), "%s::%s" % (f.cls.rsplit("::", 1)[-1], fld),
+                    "the member %s (%s) is bound to what %s returns, a reference to its %s object %s, which that function rewrites in place "
+                    "when it is called with another argument: after the next such call - by any object - this one reads the other's "
+                    "data, or past it when that is shorter" % (fld, indirect[fld]["type"], g.short, "thread_local" if d.get("tls") else "static", d["n"]),
+                    func=f.name, extra={"props": list(dict.fromkeys(_m1_props(rel) + _m1_props(prog.rel(g.file)) + ["C05"]))})
+    return n_inst
 
 
 def _m1_partial_refill(prog, res):
